@@ -307,6 +307,12 @@ func fieldBijection(x *Ctx, pk string) {
 					continue
 				}
 				known, has = v.FactOn(eqs("*global(did.Undef)", "recv."+f))
+				if !has {
+					// the same test through the accessor: Defined() is "not Undef"
+					if d, okD := v.FactOn("call[(did.DID).Defined](recv." + f + ")"); okD {
+						known, has = !d, true
+					}
+				}
 				// nothing else may decide: any other condition on the field on this path is a second rule
 				for _, fc := range v.Facts {
 					if fc.Atom.Op == "eq" && strings.Contains(fc.Atom.String(), "recv."+f) && fc.Atom.String() != eqs("*global(did.Undef)", "recv."+f) {
